@@ -30,6 +30,8 @@ structure Sys (σ : Type) where
   show_ : σ → String
   /-- labels for the model-side coverage histogram -/
   cover : σ → String → List Int → List String
+  /-- merge consecutive comparisons with the same element before comparing traces -/
+  mergeTrace : Bool := true
 
 structure Run (σ : Type) where
   table : Std.HashMap Nat (String × Except String σ) := {}
@@ -53,6 +55,9 @@ def report {σ : Type} (r : Run σ) (line : Nat) (kind detail : String) (op : St
 
 /-- Harness trace `<5,>5,<3` → keys with consecutive duplicates merged, and the
     largest number of comparisons with one key. -/
+def parseTraceRaw (t : String) : List Int :=
+  ((t.splitOn ",").filter (· ≠ "")).map fun it => (String.ofList (it.toList.drop 1)).toInt?.getD 0
+
 def parseTrace (t : String) : List Int × Nat := Id.run do
   let items := (t.splitOn ",").filter (· ≠ "")
   let mut keys : Array Int := #[]
@@ -113,7 +118,7 @@ def handleLine {σ : Type} (sys : Sys σ) (r : Run σ) (lineNo : Nat) (line : St
           if tr != "" then
             match sys.trace pre op args with
             | some path =>
-              let (keys, maxRun) := parseTrace tr
+              let (keys, maxRun) := if sys.mergeTrace then parseTrace tr else (parseTraceRaw tr, 0)
               if keys != path then
                 r ← report r lineNo "trace" s!"`{op} {args}` on {sys.show_ pre}: compared with {keys}, model path {path}" op
               if maxRun > 2 then
@@ -258,6 +263,33 @@ def hsetSys (hk : Nat) (f : HFmt) : Sys HSetS where
   show_ := showHSet
   cover := hsetCover hk
 
+/-! ### Array sets -/
+
+def showASet (s : ASetS) : String := s!"[len={s.len} vals={s.vals}]"
+
+def asetCover (f : AFmt) (s : ASetS) (op : String) (args : List Int) : List String :=
+  match op, args with
+  | "get", [x] =>
+    match s.indexP f.keyOf (f.keyOf x.toNat) with
+    | .ok (_, ps) => [s!"probes{ps.length}"]
+    | .error _ => []
+  | _, _ => []
+
+def asetSys (f : AFmt) : Sys ASetS where
+  decode := fun bs =>
+    match f.ofBytes bs with
+    | none => .error "buffer is not a count followed by whole value slots"
+    | some s => .ok s
+  encode := fun s => if s.slots ≤ 256 then some (f.toBytes s) else none
+  step := asetStep f
+  trace := asetTrace f
+  absEq := fun a b => a.view == b.view && a.slots == b.slots
+  wf := fun s => if s.wfB f then [] else ["sorted"]
+  eq := fun a b => a == b
+  show_ := showASet
+  cover := asetCover f
+  mergeTrace := false
+
 def main : IO Unit := do
   let h ← IO.getStdin
   let first ← h.getLine
@@ -273,6 +305,10 @@ def main : IO Unit := do
   | "cfg" :: "hset" :: rest =>
     let val : Scalar := { size := cfgNat rest "vsz" 8, align := cfgNat rest "val" 8, signed := false }
     let r ← loop (hsetSys (cfgNat rest "hk" 8) { val := val }) h {} 2
+    summary r
+  | "cfg" :: "aset" :: rest =>
+    let f : AFmt := { pw := cfgNat rest "pw" 1, vsz := cfgNat rest "vsz" 1, keyBytes := cfgNat rest "kb" 1 }
+    let r ← loop (asetSys f) h {} 2
     summary r
   | _ =>
     IO.println s!"M 1 parse unknown cfg line: {first}"
